@@ -57,6 +57,40 @@ type auditor struct {
 	ownFuncs   map[string]*ast.FuncDecl // their method declarations (for E10)
 }
 
+// printArgWrappers: unexported methods of the hand-written files that take
+// (operand, verb) and hand exactly those to printArg (E3 by declaration).
+var printArgWrappers = map[string]bool{}
+
+func notePrintArgWrappers(own map[string]*ast.FuncDecl) {
+	for name, fd := range own {
+		var params []string
+		for _, f := range fd.Type.Params.List {
+			for _, n := range f.Names {
+				params = append(params, n.Name)
+			}
+		}
+		if len(params) != 2 {
+			continue
+		}
+		ast.Inspect(fd.Body, func(n ast.Node) bool {
+			call, ok := n.(*ast.CallExpr)
+			if !ok || len(call.Args) != 2 {
+				return true
+			}
+			sel, ok := call.Fun.(*ast.SelectorExpr)
+			if !ok || sel.Sel.Name != "printArg" {
+				return true
+			}
+			a0, ok0 := call.Args[0].(*ast.Ident)
+			a1, ok1 := call.Args[1].(*ast.Ident)
+			if ok0 && ok1 && a0.Name == params[0] && a1.Name == params[1] {
+				printArgWrappers[name] = true
+			}
+			return true
+		})
+	}
+}
+
 // ownMethods parses the hand-written files and returns the unexported
 // methods declared there, by name.
 func ownMethods(dir string) map[string]*ast.FuncDecl {
@@ -77,6 +111,7 @@ func ownMethods(dir string) map[string]*ast.FuncDecl {
 			}
 		}
 	}
+	notePrintArgWrappers(out)
 	return out
 }
 
@@ -220,17 +255,27 @@ func (a *auditor) mentionsRedact(n ast.Node) bool {
 	return found
 }
 
-func isStartRestore(call *ast.CallExpr) bool {
+// isStartRestore: `<recv>.<helper>().<method>()` where helper is one of the
+// printer's classification helpers — by the names the repository uses today
+// (start*/restore), or any unexported method declared in the hand-written
+// files (own), whatever it is called.
+func (a *auditor) isStartRestore(call *ast.CallExpr) bool {
 	sel, ok := call.Fun.(*ast.SelectorExpr)
-	if !ok || sel.Sel.Name != "restore" {
-		return false
-	}
-	inner, ok := sel.X.(*ast.CallExpr)
 	if !ok {
 		return false
 	}
+	inner, ok := sel.X.(*ast.CallExpr)
+	if !ok || len(call.Args) != 0 {
+		return false
+	}
 	isel, ok := inner.Fun.(*ast.SelectorExpr)
-	return ok && strings.HasPrefix(isel.Sel.Name, "start")
+	if !ok {
+		return false
+	}
+	if sel.Sel.Name == "restore" && strings.HasPrefix(isel.Sel.Name, "start") {
+		return true
+	}
+	return a.own[isel.Sel.Name] && a.own[sel.Sel.Name]
 }
 
 func callName(e ast.Expr) string {
@@ -250,12 +295,19 @@ func (a *auditor) eraseStmts(list []ast.Stmt) []ast.Stmt {
 	for _, s := range list {
 		switch x := s.(type) {
 		case *ast.DeferStmt:
-			if isStartRestore(x.Call) {
+			if a.isStartRestore(x.Call) {
 				continue
 			}
 		case *ast.ExprStmt:
 			if redactOnlyHelpers[callName(x.X)] {
 				continue
+			}
+			// E2, by declaration: a statement that only calls an unexported
+			// method declared in the hand-written files
+			if call, ok := x.X.(*ast.CallExpr); ok {
+				if sel, ok := call.Fun.(*ast.SelectorExpr); ok && a.own[sel.Sel.Name] && !printArgWrappers[sel.Sel.Name] && a.ownFuncs[sel.Sel.Name] != nil && a.ownFuncs[sel.Sel.Name].Type.Results == nil {
+					continue
+				}
 			}
 			// E4: immediately invoked closure
 			if call, ok := x.X.(*ast.CallExpr); ok {
@@ -562,6 +614,10 @@ func mapPrimitives(fd *ast.FuncDecl, side string) {
 			switch sel.Sel.Name {
 			case "printVerbArg":
 				sel.Sel = ast.NewIdent("printArg")
+			default:
+				if printArgWrappers[sel.Sel.Name] {
+					sel.Sel = ast.NewIdent("printArg")
+				}
 			case "Cap":
 				if len(call.Args) == 0 {
 					return &ast.CallExpr{Fun: ast.NewIdent("cap"), Args: []ast.Expr{sel.X}}
